@@ -110,10 +110,24 @@ def run(ctx):
             ctx.requires("C17.S.skip-and-flatten-not-offered", f, blk, "Some(name)", [r"self\.skip=False", r"self\.flatten=False"])
     f = ctx.fn(common.TOK % "from_meta_impl::FromMetaImpl<'_>")
     if f:
-        cand = [t for _, t in ctx.find_calls(f, r"Iterator>::map|Iterator::map") if "as_name" in ctx.expr(f, t["args"][1])]
-        ok = len(cand) == 1 and ("filter" in ctx.expr(f, cand[0]["args"][0]))
+        # the candidate list may be computed in the generator or in a helper it calls
+        cand = [(g, t) for g in [f] + ctx.local_callees(f) for _, t in ctx.find_calls(g, r"Iterator>::map|Iterator::map") if "as_name" in ctx.expr(g, t["args"][1])]
+        ok = len(cand) == 1
+        why = "%d candidate lists" % len(cand)
+        if ok:
+            g, t = cand[0]
+            recv = ctx.expr(g, t["args"][0])
+            m = re.search(r"Iterator(?:>)?::filter\(.*, closure ([^\[]+)\[", recv)
+            pred = None
+            if m:
+                for c in ctx.closures_of(g):
+                    if c.key == m.group(1):
+                        pred = c
+            tc = ctx.true_conditions(pred) if pred is not None else None
+            ok = tc is not None and len(tc) == 1 and any(re.search(r"\.skip=False$", a) for a in tc[0])
+            why = "candidates come from %s; filter keeps a variant under %s" % (recv[:100], tc)
         ctx.ob("C17.S.variant-candidates-vs-arms", f.key, "suggestion candidates exclude skipped variants", ok,
-               "F9: match arms are emitted for non-skipped variants only (C09.G.skipped-variant-emits-nothing) but the did-you-mean candidates come from %s mapped with Variant::as_name: a skipped variant (even the rejected name itself) can be suggested" % [ctx.expr(f, t["args"][0])[:100] for t in cand])
+               "F9: match arms are emitted for non-skipped variants only (C09.G.skipped-variant-emits-nothing); the did-you-mean candidates must be the same variants: %s" % why)
     # parent names go only to the flatten initialiser
     users = sorted({b.owner_fn for b in ctx.all_bodies(core) if not scan.is_test_body(b) for tk in tpl.Templates(b).all_tokens(("ident",)) if tk.text == "add_sibling_alts_for_unknown_field"}) if False else None
     gens = [b for b in ctx.all_bodies(core) if common.derive_file(b) and not scan.is_test_body(b)]
